@@ -211,4 +211,35 @@ theorem runSched_reachable {κ : Type} {cfg : Cfg κ} {k0 : κ} {os0 : OS} {scri
       simp only []
       exact ih s' (.step hs (pickEv_step hp))
 
+theorem qInv_reachable {κ : Type} {cfg : Cfg κ} {k0 : κ} {os0 : OS} {script : List Api} {s : St κ}
+    (hr : (machine cfg k0 os0 script).Reachable s) : QInv s :=
+  Machine.invariant (machine cfg k0 os0 script) QInv (qInv_init script)
+    (fun _ e _ _ hi hs => by
+      cases e with
+      | prod => exact qInv_prod hi (stepProd_cases hs)
+      | wt => exact qInv_wt hi (stepWt_cases hs)
+      | worker i => exact qInv_worker hi (stepWorker_cases hs)) s hr
+
+theorem split_at_first_empty : ∀ (xs ys : List Bytes) (tail : List Res),
+    (∀ b ∈ xs, b ≠ []) → (∀ b ∈ ys, b ≠ []) →
+    xs.map Res.data ++ [Res.data []] = ys.map Res.data ++ Res.data [] :: tail → xs = ys := by
+  intro xs
+  induction xs with
+  | nil =>
+    intro ys tail _ hy h
+    cases ys with
+    | nil => rfl
+    | cons y ys => simp at h
+  | cons x xs ih =>
+    intro ys tail hx hy h
+    cases ys with
+    | nil =>
+      simp at h
+      exact absurd h.1 (hx x (by simp))
+    | cons y ys =>
+      simp at h
+      obtain ⟨rfl, h⟩ := h
+      rw [ih ys tail (fun b hb => hx b (List.mem_cons_of_mem _ hb))
+        (fun b hb => hy b (List.mem_cons_of_mem _ hb)) (by simpa using h)]
+
 end Osmium.WriterSM
